@@ -73,13 +73,41 @@ def run(c, binary, labels, tier, focus):
         c.sample("abq lock-step schedule (%s): %s" % (focus, s[:700]))
     broken = bool(problems or mism or not stats)
 
+    # 3b. directed scenario for rings larger than the lock-step capacities (head != 0 while the ring fills to 63..capacity
+    #     elements, drain against a reference slice; concurrent variant with a slow consumer on capacity 300)
+    big = []
+    if focus == "c07":
+        try:
+            p = subprocess.run([binary, "c07-abq-bigring", str(c.seed), tier], stdout=subprocess.PIPE, stderr=subprocess.PIPE,
+                               text=True, timeout=600, env=GOENV)
+            out = p.stdout.strip() or ("VIOLATION fifo:big-ring: command crashed: " + p.stderr[-400:])
+        except subprocess.TimeoutExpired:
+            out = "VIOLATION fifo:big-ring: the scenario did not finish in 600 s (hang)"
+        c.cov["abq_bigring"] = {"result": out.splitlines()[0][:200],
+                                "scenario": "capacities 65,100,128,129,257,1000; head moved to k in 1,7,63; fill to n in 63..257,capacity with "
+                                            "dequeue/enqueue pairs; drain and refill against a reference slice; Len/AsSlice compared at several points; "
+                                            "2 producers + 1 slow consumer on capacity 300"}
+        c.cov["evaluations"] += int((re.search(r"scenarios=(\d+)", out) or [0, 0])[1])
+        for line in out.splitlines():
+            m = re.match(r"VIOLATION fifo:big-ring: (.*)", line)
+            if m:
+                big.append(m.group(1)[:600])
+    for b in big[:1]:
+        c.report("%s:abq:fifo:big-ring" % pid, "ConcurrentArrayBlockingQueue: " + b,
+                 {"kind": "directed-run", "text": b, "how": "h c07-abq-bigring %d %s   (harness built with -tags verif; deterministic sequential scenario, "
+                                                            "parameters in the message)" % (c.seed, tier)})
+    if big:
+        broken_reported = True
+    else:
+        broken_reported = False
+
     # 3. dynamic complement / search: chaos-mode stress with the property monitors
     if tier == "quick":
         configs = [(1, 2, 2, 1500), (2, 3, 3, 1500), (3, 2, 2, 1500)]
     else:
         configs = [(1, 2, 2, 20000), (1, 4, 4, 10000), (2, 3, 3, 20000), (3, 4, 4, 20000), (4, 8, 8, 10000), (5, 2, 6, 6000)]
     hits, runs = stress(c, binary, configs)
-    if broken and not hits:
+    if broken and not hits and not big:
         # the correspondence no longer holds: search harder before giving up
         more = [(cap, g, g, 12000) for cap in (1, 2, 3) for g in (2, 4)] + [(1, 1, 1, 20000), (2, 6, 2, 8000), (2, 2, 6, 8000)]
         h2, r2 = stress(c, binary, more)
@@ -90,7 +118,7 @@ def run(c, binary, labels, tier, focus):
                            "drain after quiescence, fill exactly cap after all cancellations, completion deadlines (5 s after the call's deadline)"}
 
     # 4. report
-    reported = False
+    reported = broken_reported
     for h in hits:
         if h["kind"] in MINE.get(focus, ()) or broken:
             c.report("%s:abq:%s" % (pid, h["kind"]), "ConcurrentArrayBlockingQueue: " + h["text"], dict(h, kind="stress-run", monitor=h["kind"]))
